@@ -494,8 +494,10 @@ class PosPriorityQueue(Generic[T]):
             througput = min(self.n_inserted, self.n_removed)
             limit = max(10, len(self._pq)) + self.last_maintenance
             if througput > limit:
-                self.do_maintenance()
-                self.last_maintenance = througput
+                # (`is not False`: a do_maintenance() which does not report anything,
+                # e.g. a replacement installed by a test, counts as done)
+                if self.do_maintenance() is not False:
+                    self.last_maintenance = througput
         else:
             if len(self._pq) > 0:
                 self.n_removed += 1
@@ -504,20 +506,25 @@ class PosPriorityQueue(Generic[T]):
                 # next maintenance does not depend on the history of the queue.
                 self.n_inserted = self.n_removed = self.last_maintenance = 0
 
-    def do_maintenance(self) -> None:
+    def do_maintenance(self) -> bool:
         """Iterate over the queue, gather priority information and boost
-        priority of objects which have been waiting for a long time."""
+        priority of objects which have been waiting for a long time.
+        Returns False if the round must be repeated at the next insertion: a
+        long-waiting object was found, but it was the only regular object in the
+        queue, so there was no priority to boost it relative to."""
         if not self.priority_boost_factor:
-            return  # pragma: no cover
+            return True  # pragma: no cover
         # the priority range of the regular entries.  Positional entries (class 0)
         # are not part of it: their priority value only encodes their position.
         min_pri: Optional[float] = None
         max_pri: Optional[float] = None
         stragglers = []
+        n_regular = 0
         limit = self.n_inserted - len(self._pq)
         for pri, obj in self._pq.items():
             if pri.priority_class == 0:
                 continue
+            n_regular += 1
             base_pri = pri.priority()
             min_pri = base_pri if min_pri is None else min(min_pri, base_pri)
             max_pri = base_pri if max_pri is None else max(max_pri, base_pri)
@@ -529,6 +536,15 @@ class PosPriorityQueue(Generic[T]):
         if stragglers:
             assert min_pri is not None and max_pri is not None
             self.boost_stragglers(stragglers, min_pri, max_pri)
+            if n_regular < 2:
+                # the long-waiting object is the only regular one (the others, if
+                # any, are positional): there is nothing more urgent to compare it
+                # with right now.  Have the caller try again at the next insertion
+                # instead of waiting for another full maintenance period, or an
+                # object could starve under a load which happens to run maintenance
+                # only at such moments.
+                return False
+        return True
 
     def boost_stragglers(
         self, stragglers: List[Tuple[PriorityValue, T]], min_pri: float, max_pri: float
